@@ -36,8 +36,11 @@ KANI_TARGET = os.path.join(BUILD, "kani")
 REPLAY_TARGET = os.path.join(BUILD, "replay")
 WORK = os.path.join(BUILD, "work")
 KLIB = "/root/.kani/kani-0.68.0/library/kani/kani_lib.c"
-FEATURES = "std,groups,case-resumption"
-REPLAY_FEATURES = "std,groups,case-resumption"
+# max-sessions-3: the smallest session-table configuration of the crate (the default is 16). Every
+# harness that touches `Sessions` pays for the whole table in CBMC (16 x ~600 B copied on every
+# swap_remove / push); measured 2-6x faster and the difference between OOM and a verdict.
+FEATURES = "std,groups,case-resumption,max-sessions-3"
+REPLAY_FEATURES = "std,groups,case-resumption,max-sessions-3"
 ENV = dict(os.environ, CARGO_NET_OFFLINE="true")
 
 CBMC_FLAGS = [
@@ -319,8 +322,18 @@ def run_harness(h, tier, want_sample=False):
         ok = run_arith(h, cfg, binary, rec, timeout, mem)
     else:
         r = sh(cbmc_cmd(h, cfg, binary), timeout=timeout, mem_gb=mem)
-        rec["solver_s"] = round(time.time() - t1, 2)
         res, status, msgs = parse_cbmc_json(r.stdout)
+        if (res is None or any(p.get("status") == "ERROR" for p in res)) and cfg.get("sat", "cadical") == "cadical":
+            # CaDiCaL is the fastest back end on passing harnesses, but CBMC drives it
+            # non-incrementally: with many failing properties (one SAT call per counterexample) it
+            # can run out of time/memory where MiniSat (CBMC's default, incremental) finishes.
+            cfg2 = dict(cfg, sat="minisat2")
+            r2 = sh(cbmc_cmd(h, cfg2, binary), timeout=timeout, mem_gb=mem)
+            res2, status2, msgs2 = parse_cbmc_json(r2.stdout)
+            if res2 is not None and not any(p.get("status") == "ERROR" for p in res2):
+                r, res, status, msgs = r2, res2, status2, msgs2
+                rec["backend"] = "cbmc-6.11/minisat2 (after cadical gave no verdict)"
+        rec["solver_s"] = round(time.time() - t1, 2)
         if res is None:
             why = "timeout after %ds" % timeout if r.stderr == "TIMEOUT" else \
                 "cbmc gave no result (exit %s; out of memory under the %d GB cap?) %s" % (
@@ -500,12 +513,58 @@ def smt_export(h, cfg, binary, names, out, timeout, mem):
     # "(error" after an unsat answer, which we otherwise treat as inconclusive
     with open(out + ".raw") as fi, open(out, "w") as fo:
         for line in fi:
-            fo.write(line)
+            fo.write(fix_overflow_mult(line))
             if line.startswith("(check-sat)"):
                 break
         fo.write("(exit)\n")
     os.remove(out + ".raw")
     return True
+
+
+_MUL_PAT = re.compile(r"\(concat \(\(_ extract (\d+) 0\) prod\) ")
+
+
+def fix_overflow_mult(line):
+    """CBMC 6.11's SMT2 back end flattens the {result, overflowed} pair of a checked multiplication
+    as (concat result overflow_bit) but reads `result` back as bits [w-1:0] and `overflowed` as bit w,
+    i.e. every checked product comes out as 2*product+overflow (found with the MRP back-off harness:
+    all of cvc5/z3 4.8/z3 5.1 answered sat with a model that does not satisfy the Rust semantics).
+    Re-order the concat to (concat overflow_bit result), which is what the extracts expect. The
+    engine's SMT self-test harness (x00_q_smt_selftest) validates the repaired encoding on every run."""
+    if "(concat ((_ extract" not in line or " prod) " not in line:
+        return line
+    out = []
+    i = 0
+    while True:
+        m = _MUL_PAT.search(line, i)
+        if not m:
+            out.append(line[i:])
+            break
+        out.append(line[i:m.start()])
+        j = m.end()
+        # parse the balanced s-expression (the overflow bit) that follows
+        if line[j] != "(":
+            out.append(line[m.start():j])
+            i = j
+            continue
+        depth = 0
+        k = j
+        while k < len(line):
+            if line[k] == "(":
+                depth += 1
+            elif line[k] == ")":
+                depth -= 1
+                if depth == 0:
+                    break
+            k += 1
+        ovf = line[j:k + 1]
+        if line[k + 1] != ")":
+            out.append(line[m.start():k + 1])
+            i = k + 1
+            continue
+        out.append("(concat %s ((_ extract %s 0) prod))" % (ovf, m.group(1)))
+        i = k + 2
+    return "".join(out)
 
 
 def smt_race(f, timeout, mem, want_all=False):
@@ -554,6 +613,52 @@ def smt_race(f, timeout, mem, want_all=False):
     return answers, verdict
 
 
+_SELFTEST = {"done": False, "ok": False, "detail": ""}
+_SELFTEST_LOCK = __import__("threading").Lock()
+_META = {"meta": None}
+
+
+def smt_selftest():
+    """Validate the SMT-LIB2 route (export + repair + solvers) on a harness with a known answer."""
+    with _SELFTEST_LOCK:
+        if _SELFTEST["done"]:
+            return _SELFTEST["ok"], _SELFTEST["detail"]
+        _SELFTEST["done"] = True
+        meta = _META["meta"]
+        hs = [x for x in (meta or {}).get("proof_harnesses", []) if x["pretty_name"].endswith("x00_q_smt_selftest")]
+        if not hs:
+            _SELFTEST["detail"] = "self-test harness not found"
+            return False, _SELFTEST["detail"]
+        x = hs[0]
+        h = dict(name="x00_q_smt_selftest", goto=x["goto_file"], mangled=x["mangled_name"], unwind=None)
+        binary, err = prepare(h)
+        if err:
+            _SELFTEST["detail"] = err
+            return False, err
+        r = sh(cbmc_cmd(h, {}, binary, extra=["--show-properties"]), timeout=120, mem_gb=8)
+        props = []
+        try:
+            for item in json.loads(r.stdout):
+                if "properties" in item:
+                    props = item["properties"]
+        except Exception:
+            pass
+        want = {"SELFTEST-holds": "unsat", "SELFTEST-fails": "sat"}
+        got = {}
+        wd = os.path.join(WORK, h["name"])
+        for p in props:
+            for key, exp in want.items():
+                if key in p.get("description", ""):
+                    f = os.path.join(wd, key + ".smt2")
+                    if smt_export(h, {}, binary, [p["name"]], f, 120, 8):
+                        a, v = smt_race(f, 120, 8)
+                        got[key] = v
+        ok = all(got.get(k) == v for k, v in want.items())
+        _SELFTEST["ok"] = ok
+        _SELFTEST["detail"] = "smt self-test: %s (expected %s)" % (got, want)
+        return ok, _SELFTEST["detail"]
+
+
 def run_arith(h, cfg, binary, rec, timeout, mem):
     """Harnesses whose assertions depend on 64-bit multiply/divide/remainder kernels that CaDiCaL does
     not finish. Split: (1) the harness' ROLE assertions, the unwinding assertions and the arithmetic
@@ -561,6 +666,11 @@ def run_arith(h, cfg, binary, rec, timeout, mem):
     conjunction) and decided by cvc5 / cvc5 bv-as-int / z3 4.8.12 / z3 5.1 in parallel;
     (2) every other check (pointer, bounds, covers, reachability twins) goes to CBMC/CaDiCaL."""
     t1 = time.time()
+    ok, detail = smt_selftest()
+    rec["smt_selftest"] = detail
+    if not ok:
+        rec["inconclusive"].append("arith: " + detail)
+        return False
     r = sh(cbmc_cmd(h, cfg, binary, extra=["--show-properties"]), timeout=300, mem_gb=mem)
     try:
         js = json.loads(r.stdout)
@@ -721,6 +831,7 @@ def check(prop, tier, seed, jobs, only=None):
     if meta is None:
         write_evidence(prop, tier, seed, [], build_s, time.time() - t0, inconclusive=["encode failed"])
         return 2
+    _META["meta"] = meta
     hs = [h for h in harnesses(meta) if h["prop"] == prop and (tier == "thorough" or h["tier"] == "q")]
     if only:
         hs = [h for h in hs if any(o in h["name"] for o in only)]
@@ -770,6 +881,8 @@ def check(prop, tier, seed, jobs, only=None):
             h = hmap[rec["name"]]
             cfg = harness_cfg.CFG.get(h["name"], {})
             binary, _ = prepare(h)
+            if "minisat" in rec.get("backend", ""):
+                cfg = dict(cfg, sat="minisat2")
             tr = get_trace(h, cfg, binary, f["property"], 3600, 20)
             values = draws_of(tr) if tr else None
             os.makedirs(os.path.join(VERIF, "replay", prop), exist_ok=True)
@@ -795,13 +908,29 @@ def check(prop, tier, seed, jobs, only=None):
             else:
                 inconcl.append("%s: counterexample for [%s] did not reproduce natively (%s) - encoding/stub suspect" % (
                     rec["name"], role, nat))
+    # translation validation of the encoding itself (thorough tier, or VERIF_VALIDATE=1): the
+    # solver-produced input that reaches a harness' last cover is pushed through the SAME harness
+    # compiled by the repository's rustc; it must run to completion without tripping an assume.
+    validated = 0
+    if (tier == "thorough" or os.environ.get("VERIF_VALIDATE") == "1") and not new_fail:
+        with_samples = [r for r in recs if r.get("sample") and harness_cfg.CFG.get(r["name"], {}).get("replay") != "trace-only"]
+        if with_samples:
+            exes = replay_build()
+            for r in with_samples:
+                nat, tail = replay_native(r["pretty"], r["sample"]["draws"], {"dev": exes.get("dev")})
+                r["sample"]["native"] = nat.get("dev")
+                if nat.get("dev") == "pass":
+                    validated += 1
+                elif nat.get("dev") in ("panic", "assume-failed"):
+                    inconcl.append("%s: the solver's cover input does not run through natively (%s %s) - encoding/stub suspect" % (
+                        r["name"], nat.get("dev"), tail[:120]))
     for rec, role, rp in violations:
         log("VIOLATION property=%s replay=%s" % (prop, rp))
         log("   harness %s, failed: %s" % (rec["name"], role))
     for i in inconcl:
         log("INCONCLUSIVE: " + i)
     write_evidence(prop, tier, seed, recs, build_s, time.time() - t0, inconclusive=inconcl,
-                   known=[(r["name"], role) for r, role, _ in known_hit], violations=len(violations))
+                   known=[(r["name"], role) for r, role, _ in known_hit], violations=len(violations), validated=validated)
     if violations:
         return 1
     if inconcl:
@@ -811,7 +940,7 @@ def check(prop, tier, seed, jobs, only=None):
     return 0
 
 
-def write_evidence(prop, tier, seed, recs, build_s, wall, inconclusive=(), known=(), violations=0):
+def write_evidence(prop, tier, seed, recs, build_s, wall, inconclusive=(), known=(), violations=0, validated=0):
     os.makedirs(os.path.join(VERIF, "evidence"), exist_ok=True)
     decided = sum(r.get("decided", 0) or 0 for r in recs)
     reached = sum(r.get("harness_asserts_reached", 0) or 0 for r in recs)
@@ -820,7 +949,7 @@ def write_evidence(prop, tier, seed, recs, build_s, wall, inconclusive=(), known
     for r in recs:
         if r.get("sample"):
             samples.append(dict(harness=r["name"], kind="solver-produced input reaching the harness' final cover",
-                                draws=r["sample"]["draws"][:64]))
+                                draws=r["sample"]["draws"][:64], native_run=r["sample"].get("native")))
     if not samples:
         for r in recs[:3]:
             samples.append(dict(harness=r["name"], kind="obligation", unwind=r.get("unwind"),
@@ -844,6 +973,7 @@ def write_evidence(prop, tier, seed, recs, build_s, wall, inconclusive=(), known
                             prep_s=r.get("prep_s"), solver_s=r.get("solver_s"), wall_s=r.get("wall_s"),
                             failures=[f["role"] for f in r["failures"]], inconclusive=r["inconclusive"]) for r in recs],
             harnesses_nontrivial=nontrivial,
+            traces_validated_against_impl=validated,
             functions_encoded=funcs[:400],
             encode_s=round(build_s, 1),
             solver_s=round(sum(r.get("solver_s", 0) or 0 for r in recs), 1),
@@ -896,6 +1026,7 @@ def main():
             meta, s = build()
             if meta is None:
                 sys.exit(2)
+        _META["meta"] = meta
         hs = [h for h in harnesses(meta) if any(n in h["name"] for n in a.names)]
         with cf.ThreadPoolExecutor(max_workers=jobs) as ex:
             futs = [ex.submit(run_harness, h, a.tier, False) for h in hs]
